@@ -37,7 +37,7 @@ ASSUMPTIONS = [
     'text whose size is <= B but whose cumulative in-memory budget (part headers + earlier text) exceeds B may be accepted or refused',
 ]
 
-PTYPES = ['raw', 'raw', 'urlenc', 'json', 'mp_text', 'mp_file']
+PTYPES = ['raw', 'raw', 'urlenc', 'json', 'mp_text', 'mp_file', 'mp_multi']
 
 
 def make_payload(ptype, T, boundary='bnd'):
@@ -66,6 +66,15 @@ def make_payload(ptype, T, boundary='bnd'):
         hs, he, ds, de = layout[0]
         return body, 'multipart/form-data; boundary=' + boundary, {'text': (n if ptype == 'mp_text' else None), 'field': n,
                                                                    'hdr': he - hs, 'value': 'y' * n}
+    if ptype == 'mp_multi':
+        # several text fields whose values add up to about T bytes: the in-memory budget is for the form, not per field
+        k = 2 + T % 4
+        each = max(0, T // k)
+        fields = [{'name': 'f%d' % j, 'value': 'y' * each} for j in range(k)]
+        body, layout = gm.encode_fields(fields, boundary)
+        hdr = sum(he - hs for hs, he, ds, de in layout)
+        return body, 'multipart/form-data; boundary=' + boundary, {'text': k * each, 'field': each, 'hdr': hdr,
+                                                                   'value': 'y' * each, 'k': k, 'sum': k * each}
     raise AssertionError(ptype)
 
 
@@ -120,7 +129,7 @@ def _gen_case(rng, tier):
     B = rng.choice([1, 2, 5, 16, 64, 200, 1024, 4096])
     M = rng.choice([None, None, max(1, B - 1), B, B + 1, 2 * B, 3 * B + 7, 10, 100, 1000, 4096, 0])
     ptype = rng.choice(PTYPES)
-    if ptype in ('mp_text', 'mp_file') and rng.random() < 0.7:
+    if ptype in ('mp_text', 'mp_file', 'mp_multi') and rng.random() < 0.7:
         B = rng.choice([128, 200, 512, 1024])
         M = rng.choice([None, B + 100, 2 * B, 10 * B, 300, 5000])
     lim = M if M is not None else 3 * B
@@ -192,7 +201,7 @@ def _run_case(case):
     if endless:
         max_calls = bound + 64
     touch = {'raw': ('body',), 'urlenc': ('body', 'forms'), 'json': ('body', 'json'),
-             'mp_text': ('body', 'forms'), 'mp_file': ('body', 'files')}[ptype]
+             'mp_text': ('body', 'forms'), 'mp_file': ('body', 'files'), 'mp_multi': ('body', 'forms')}[ptype]
     if chunked and case.get('cl_too') is not None:
         cl = case['cl_too']
         res['probes']['chunked_with_content_length'] += 1
@@ -249,6 +258,11 @@ def _run_case(case):
                 may_refuse = True
         if ptype == 'mp_file' and info['hdr'] > B:
             may_refuse = True
+        if ptype == 'mp_multi':
+            if info['sum'] > B:
+                must_refuse = True          # the text of the form alone exceeds the in-memory threshold
+            elif info['sum'] + info['hdr'] > B:
+                may_refuse = True
         if must_refuse:
             if code is not None and 200 <= code < 300:
                 violation(res, 'C13:oversized-text-loaded',
@@ -268,6 +282,10 @@ def _run_case(case):
                 if size > B and not o.seen.get('body_spilled'):
                     violation(res, 'C13:not-spilled',
                               f'body of {size} bytes > max_memfile_size={B} is held in {o.seen.get("body_type")} (not the temp file)')
+                if ptype == 'mp_multi':
+                    got = dict((k, v) for k, v in o.seen.get('forms', []))
+                    if got != {('f%d' % j): info['value'] for j in range(info['k'])}:
+                        violation(res, 'C13:form-value-differs', f'forms of a {info["k"]}-field form differ from what was sent')
                 if ptype in ('urlenc', 'mp_text'):
                     got = dict((k, v) for k, v in o.seen.get('forms', []))
                     key = 'a' if ptype == 'urlenc' else 'f'
